@@ -682,8 +682,6 @@ def gen_C10(c, rng, tier):
                 if rng.random() < 0.25:
                     s, cl3 = mpi_variant(rng, s, info); cl = cl + cl3          # every rank ends at the serial generator position
                 c.add(t, 'run', s, classes=cl, nontrivial=(kind == 'mc' or any('value_nan' == x or 'value_inf' == x for x in cl)), info=info)
-    for b, l in itertools.product([24, 53, 64], [1, 2, 8, 16, 24, 30, 31, 32, 48, 63, 64]):
-        c.add('d', 'usage', [b, l], classes=['usage_k'], model_only=True)
     for t in TYPES: gen_sizes(c, rng, tier, t, ['dims', 'channels'])
 
 @prop('C11', '1-d and 2-d binnings (negative, tiny, huge, non-unit ranges) with coordinates interior / on every edge / +-1 ulp / outside / +-inf / NaN / 2^70, '
